@@ -7,6 +7,7 @@ mod c04;
 mod c09;
 mod c10;
 mod c11;
+mod c13;
 mod gens;
 mod proto;
 mod report;
@@ -28,6 +29,8 @@ fn rule_and_assumptions(prop: &str) -> (&'static str, Vec<&'static str>) {
         "C09" => (c09::RULE, vec!["plain panics are caught in-process (catch_unwind); aborts/stack overflows kill the harness and are detected by the parent, which re-runs in journal mode to obtain the witness", "inputs above 3 MiB are not driven"]),
         "C10" => (c10::RULE, vec!["unpredictability proper is out of reach: the monitor sees constants, counters, clocks, message-derived nonces, low entropy (birthday collisions) and fixed seeds, not a cryptographically weak but statistically clean generator", "thresholds: per-bit false-alarm probability < 2^-79 for a uniform source; a birthday collision of >= 192-bit nonces at N = 1e5 has probability < 2^-150"]),
         "C11" | "C12" => (c11::RULE, vec!["the harness clock and the library read the same realtime clock; margins 2 s (past) / 60 s (future); cases whose parse finished > 30 s after generation are discarded, never failed", "leap seconds (second 60) are not driven"]),
+        "C13" => (c13::RULE_C13, vec!["payloads of local tokens are read back with the library's own decrypt (round-trip fidelity is C01's business)", "clock bracket: realtime clock read before and after the whole word is executed, 5 ms slack"]),
+        "C17" => (c13::RULE_C17, vec!["payloads of local tokens are read back with the library's own decrypt (round-trip fidelity is C01's business)"]),
         _ => ("", vec![]),
     }
 }
@@ -44,6 +47,7 @@ fn run(prop: &str, tier: &str, seed: u64, extra: &[String]) -> Report {
         "C09" => c09::run(tier, seed),
         "C10" => c10::run(tier, seed),
         "C11" | "C12" => c11::run(prop, tier, seed),
+        "C13" | "C17" => c13::run(prop, tier, seed),
         _ => {
             let mut r = Report::new();
             r.inconclusive.push(format!("no driver for property {}", prop));
@@ -65,6 +69,7 @@ fn replay(rec: &Value) -> (String, Report) {
         "C09" => c09::replay(&case),
         "C10" => c10::replay(&case),
         "C11" | "C12" => c11::replay(&cmd, &case),
+        "C13" | "C17" => c13::replay(&cmd, &case),
         _ => {
             let mut r = Report::new();
             r.inconclusive.push(format!("replay record has no known cmd: {:?}", cmd));
